@@ -168,6 +168,8 @@ class Chain:
         self.faults = {}        # message index -> Bool (fails when true)
         self.fault_seq = 0
         self.fault_inject = None    # callable(kind, detail) -> bool (should this call fail)
+        self.submsgs = []           # (contract, reply_on, id, msg kind, sub kind) of every dispatched message
+        self.calls = 0
 
     # --- state snapshot (for rollback / comparisons)
     def snapshot(self):
@@ -204,6 +206,7 @@ class Chain:
     def execute(self, sender, contract, msg, funds):
         """top-level transaction: returns ('ok', response) or ('err', reason); state is rolled back on error"""
         snap = self.snapshot()
+        self.last_pre = snap
         try:
             r = self._execute(sender, contract, msg, funds)
             return 'ok', r
@@ -235,8 +238,9 @@ class Chain:
         return resp
 
     def _fault(self, kind, detail):
+        self.calls += 1
         if self.fault_inject is not None:
-            return self.fault_inject(kind, detail)
+            return self.fault_inject(self.calls, kind, detail)
         return False
 
     def _dispatch(self, contract, resp):
@@ -244,6 +248,7 @@ class Chain:
         for sm in resp.get('messages').e:
             msg = sm.get('msg')
             reply_on = sm.get('reply_on').var
+            self.submsgs.append((contract, reply_on, sm.get('id'), deref(msg).var, deref(msg).f[0].var if deref(msg).f and isinstance(deref(msg).f[0], En) else None))
             snap = self.snapshot() if reply_on in ('Error', 'Always') else None
             try:
                 self._run_msg(contract, msg)
